@@ -210,6 +210,17 @@ func c14RunLarge(c c14Case, st *fw.Stats) []fw.Viol {
 		// a caching router whose routes were ALL registered through Route.AttachTo: a resolved dynamic request is in the cache
 		st.Evals++
 		st.Nontrivial++
+		// (capacity 0 through every option spelling: such a cache never holds anything)
+		for name, opts := range map[string][]func(*rux.Router){"MaxNumCaches(0), EnableCaching": {rux.MaxNumCaches(0), rux.EnableCaching}, "EnableCaching, MaxNumCaches(0)": {rux.EnableCaching, rux.MaxNumCaches(0)}, "CachingWithNum(0)": {rux.CachingWithNum(0)}} {
+			r0 := rux.New(opts...)
+			r0.GET("/p/{id}", func(*rux.Context) {})
+			for i := 0; i < 3; i++ {
+				r0.Match("GET", fmt.Sprintf("/p/%d", i))
+			}
+			if cache := r0.VerifCache(); cache != nil && cache.Len() != 0 {
+				addViol("router:large:len", fmt.Sprintf("router built with %s: after three dynamic requests its cache of capacity 0 holds %d entries", name, cache.Len()))
+			}
+		}
 		r := rux.New(rux.CachingWithNum(uint16(N)))
 		rux.NewRoute("/p/{id}", func(*rux.Context) {}, "GET").AttachTo(r)
 		rux.NewNamedRoute("q", "/q/{id}/{x}", func(*rux.Context) {}, "GET").AttachTo(r)
